@@ -49,7 +49,7 @@ def tracing(log):
             raise
         log.depth -= 1
         if log.depth == 0:          # split() recurses after blocking an ellipsoid: log the outermost call only
-            _rec(log, self, dict(name='Split', allow=bool(allow_overlap), ret=bool(r)), None)
+            _rec(log, self, dict(name='Split', allow=bool(allow_overlap), ret=bool(r), shrinkOK=True), None)
         return r
 
     def trim(self, *a, **k):
